@@ -1333,11 +1333,14 @@ class SQLModel:
                 ),
                 ops_key=None,
             )
-        subsql.terms = {
+        narrowed_terms = {
             k: subsql.terms[k]
             for k in select_columns_node.column_selection
             if k in subusing
         }
+        if len(narrowed_terms) > 0:
+            # nothing requested: the sub-step keeps its own select list (an aggregation must stay one)
+            subsql.terms = narrowed_terms
         return subsql
 
     def drop_columns_to_near_sql(
@@ -1379,11 +1382,14 @@ class SQLModel:
                 ),
                 ops_key=None,
             )
-        subsql.terms = {
+        narrowed_terms = {
             k: subsql.terms[k]
             for k in using
             if k not in drop_columns_node.column_deletions
         }
+        if len(narrowed_terms) > 0:
+            # nothing requested: the sub-step keeps its own select list (an aggregation must stay one)
+            subsql.terms = narrowed_terms
         return subsql
 
     def order_to_near_sql(
